@@ -183,11 +183,16 @@ func ReleaseHook(op string, m interface{}) {
 
 // Explorer enumerates schedules.
 type Explorer struct {
-	Setup                      func() []ThreadSpec // called at the start of every execution: reset the world, return the threads
-	AfterStep                  func(x *Execution)  // optional, called by the scheduler after every executed step (state keys)
-	Check                      func(x *Execution)  // called once per complete execution
-	MaxPoints                  int                 // horizon: points per execution
-	Stop                       func() bool         // optional budget test, polled between executions
+	Setup     func() []ThreadSpec // called at the start of every execution: reset the world, return the threads
+	AfterStep func(x *Execution)  // optional, called by the scheduler after every executed step (state keys)
+	Check     func(x *Execution)  // called once per complete execution
+	MaxPoints int                 // horizon: points per execution
+	// WarmUp: executions of the default schedule run (and discarded) before the exploration starts, so that lazily
+	// built process-wide state of the code under test (caches, pools) is in its steady state when the recorded,
+	// replayed executions begin. State that still leaks from one execution into the next is a replay divergence
+	// (hard harness error).
+	WarmUp                     int
+	Stop                       func() bool // optional budget test, polled between executions
 	Bound                      int
 	Executions, PointsExecuted int64
 	ByCost                     map[int]int64 // executions by total preemption cost
@@ -344,6 +349,9 @@ func (e *Explorer) Run(prefix []int, expect []PointRec) *Execution {
 // Explore executes every schedule of cost <= e.Bound (depth first, canonical choice first).
 func (e *Explorer) Explore() {
 	e.nodes = [3]int{}
+	for i := 0; i < e.WarmUp; i++ {
+		e.Run(nil, nil)
+	}
 	e.explore(nil, nil, 0)
 }
 
